@@ -15,6 +15,7 @@ package main
 // re-executions.
 
 import (
+	"math"
 	"fmt"
 	"golang.org/x/tools/go/ssa"
 	"math/big"
@@ -877,7 +878,9 @@ func (p *Path) violation(kind, msg, where string, vals map[string]ModelVal) {
 		} else if mv, ok := vals[n.Term.raw]; ok {
 			switch n.Kind {
 			case "float":
-				it.F = mv.F
+				if !math.IsNaN(mv.F) && !math.IsInf(mv.F, 0) {
+					it.F = mv.F // informational; the bit pattern in I is what the replay uses
+				}
 				it.I = fmt.Sprintf("%x", mathFloat64bits(mv.F))
 			case "bool":
 				it.B = mv.B
